@@ -1241,14 +1241,15 @@ def _inline_expression_helpers(trees):
             continue
         t, c, h = ds[0]
         static = isinstance(c, ast.ClassDef) and len(h.decorator_list) == 1 and isinstance(h.decorator_list[0], ast.Name) and h.decorator_list[0].id == "staticmethod"
-        if (h.decorator_list and not static) or h.args.vararg or h.args.kwarg or h.args.posonlyargs or h.args.kwonlyargs:
+        if (h.decorator_list and not static) or h.args.vararg or h.args.kwarg or h.args.kwonlyargs:
             continue
         body = [s for s in h.body if not (isinstance(s, ast.Expr) and isinstance(s.value, ast.Constant) and isinstance(s.value.value, str))]
         if len(body) != 1 or not isinstance(body[0], ast.Return) or body[0].value is None:
             continue
         is_method = isinstance(c, ast.ClassDef)
-        params = [a.arg for a in h.args.args][1 if (is_method and not static) else 0 :]
-        if is_method and not static and (not h.args.args or h.args.args[0].arg != "self"):
+        allp = [a.arg for a in h.args.posonlyargs + h.args.args]
+        params = allp[1 if (is_method and not static) else 0 :]
+        if is_method and not static and (not allp or allp[0] != "self"):
             continue
         expr = body[0].value
         if any(isinstance(x, (ast.Lambda, ast.ListComp, ast.SetComp, ast.DictComp, ast.GeneratorExp, ast.Yield, ast.Await, ast.NamedExpr)) for x in ast.walk(expr)):
@@ -1261,12 +1262,62 @@ def _inline_expression_helpers(trees):
             for n in [x for t_ in trees for x in ast.walk(t_)]:
                 if isinstance(n, ast.Call) and isinstance(n.func, ast.Attribute) and n.func.attr == nm and isinstance(n.func.value, ast.Name) and n.func.value.id in ("self", "cls", c.name):
                     sites.append(n)
-        else:
+        elif is_method:
             for n in ast.walk(scope):
-                if isinstance(n, ast.Call) and ((is_method and isinstance(n.func, ast.Attribute) and n.func.attr == nm and isinstance(n.func.value, ast.Name) and n.func.value.id == "self") or (not is_method and isinstance(n.func, ast.Name) and n.func.id == nm)):
+                if isinstance(n, ast.Call) and isinstance(n.func, ast.Attribute) and n.func.attr == nm and isinstance(n.func.value, ast.Name) and n.func.value.id == "self":
                     sites.append(n)
-        if not sites or len(sites) > 6 or refs.get(nm, 0) != len(sites):
+        else:
+            # a module-level helper: called by name in its own module and in every module that imports the name
+            imports = [(t_, i_, a_) for t_ in trees for i_ in ast.walk(t_) if isinstance(i_, ast.ImportFrom) for a_ in i_.names if a_.name == nm and a_.asname is None]
+            for t_ in [t] + [x[0] for x in imports]:
+                for n in ast.walk(t_):
+                    if isinstance(n, ast.Call) and isinstance(n.func, ast.Name) and n.func.id == nm and not any(n is s_ for s_ in sites):
+                        sites.append(n)
+        n_imp = len(imports) if (not is_method and not static) else 0
+        if not sites or len(sites) > 12 or refs.get(nm, 0) != len(sites) + n_imp:
             continue
+        if n_imp:
+            # the expression's global names must mean the same thing in the importing modules: bound there by the same
+            # import statement, or not bound at all (the import is then copied over)
+            def _binders(tree_):
+                out_ = {}
+                for s_ in tree_.body:
+                    if isinstance(s_, (ast.Import, ast.ImportFrom)):
+                        for a_ in s_.names:
+                            out_[(a_.asname or a_.name).split(".")[0]] = ("import", ast.dump(s_) if len(s_.names) == 1 else ast.dump(a_) + (getattr(s_, "module", None) or "") + str(getattr(s_, "level", 0)), s_, a_)
+                    elif isinstance(s_, (ast.FunctionDef, ast.ClassDef)):
+                        out_[s_.name] = ("def", None, s_, None)
+                    elif isinstance(s_, ast.Assign):
+                        for t__ in s_.targets:
+                            if isinstance(t__, ast.Name):
+                                out_[t__.id] = ("assign", None, s_, None)
+                return out_
+
+            import builtins as _bi
+
+            free_ = {x.id for x in ast.walk(expr) if isinstance(x, ast.Name) and x.id not in params and not hasattr(_bi, x.id)}
+            home_ = _binders(t)
+            clash_, to_add_ = False, []
+            for t_, i_, a_ in imports:
+                there_ = _binders(t_)
+                for v_ in free_:
+                    hb_ = home_.get(v_)
+                    if hb_ is None or hb_[0] != "import":
+                        clash_ = True
+                    elif v_ in there_:
+                        tb_ = there_[v_]
+                        if tb_[0] != "import" or (ast.dump(tb_[3]), getattr(tb_[2], "module", None), getattr(tb_[2], "level", 0)) != (ast.dump(hb_[3]), getattr(hb_[2], "module", None), getattr(hb_[2], "level", 0)):
+                            clash_ = True
+                    else:
+                        if isinstance(hb_[2], ast.ImportFrom) and hb_[2].level:
+                            clash_ = True  # a relative import means something else from another package
+                        else:
+                            to_add_.append((t_, type(hb_[2])(**{**{f_: getattr(hb_[2], f_) for f_ in hb_[2]._fields}, "names": [hb_[3]]})))
+            if clash_:
+                continue
+            for t_, imp_ in to_add_:
+                if not any(ast.dump(imp_) == ast.dump(s_) for s_ in t_.body):
+                    t_.body.insert(0, ast.fix_missing_locations(ast.copy_location(imp_, t_.body[0])))
         if any(x is s for s in sites for x in ast.walk(h)):
             continue  # recursive
         ok = True
@@ -1294,7 +1345,7 @@ def _inline_expression_helpers(trees):
         if not ok:
             continue
         parent = {}
-        for n in ([x for t_ in trees for x in ast.walk(t_)] if static else ast.walk(scope)):
+        for n in ([x for t_ in trees for x in ast.walk(t_)] if (static or n_imp) else ast.walk(scope)):
             for fld, v in ast.iter_fields(n):
                 if isinstance(v, list):
                     for i, x in enumerate(v):
@@ -1316,7 +1367,16 @@ def _inline_expression_helpers(trees):
             else:
                 getattr(par, fld)[i] = new
         (c.body if is_method else t.body).remove(h)
-        for t_ in (trees if static else [t]):
+        if n_imp:
+            for t_, i_, a_ in imports:
+                i_.names.remove(a_)
+            for t_ in trees:
+                for owner in ast.walk(t_):
+                    for fld in ("body", "orelse", "finalbody"):
+                        blk = getattr(owner, fld, None)
+                        if isinstance(blk, list) and any(isinstance(s_, ast.ImportFrom) and not s_.names for s_ in blk):
+                            blk[:] = [s_ for s_ in blk if not (isinstance(s_, ast.ImportFrom) and not s_.names)] or [ast.Pass()]
+        for t_ in (trees if (static or n_imp) else [t]):
             ast.fix_missing_locations(t_)
 
 
